@@ -1,7 +1,7 @@
 """C01 (runtime stream fidelity) and C02 (protocol-conformant programs give valid,
 accepted traces): exhaustive enumeration of API call sequences over the fill
 level of the staging buffer, on the real libovni (harness/rt_driver.c)."""
-import os, json, subprocess, shutil, struct, itertools
+import os, json, subprocess, shutil, struct, itertools, glob
 from lib.common import Ctx, Build, Scratch, InfraError, REPO, pmap
 from lib import obs, emusrv
 
@@ -114,9 +114,9 @@ MANDATORY = ["version", "ovni.part", "ovni.tid", "ovni.pid", "ovni.loom", "ovni.
              "ovni.loom_cpus", "ovni.finished", "ovni.lib.version", "ovni.lib.commit"]
 
 
-def check_valid(casedir):
+def check_valid(casedir, sp=None, optional=()):
     """C02 oracle part 1: the stream conforms to the trace specification."""
-    sp = stream_path(casedir)
+    sp = sp or stream_path(casedir)
     try:
         data = open(os.path.join(sp, "stream.obs"), "rb").read()
         meta = json.load(open(os.path.join(sp, "stream.json")))
@@ -127,6 +127,8 @@ def check_valid(casedir):
     except obs.ParseError as e:
         return "stream violates the trace specification: %s" % e
     for k in MANDATORY:
+        if k in optional:
+            continue
         cur = meta
         for part in k.split("."):
             if not isinstance(cur, dict) or part not in cur:
@@ -628,6 +630,45 @@ def run_c02(prop, tier):
                               {"engine": "E1 rt_driver", "bufsz": 97, "program": proto(prog), "short": "-", "oracle": "C02", "tmpdir": t, "relative": True},
                               {"kind": "chdir"})
         ctx.part("working-directory", runs=len(cdjobs))
+        # many streams: a conformant program with N threads (real pthreads, one after another, each on its own CPU).  Every stream
+        # conforms, and the emulator accepts the trace -- also when the process may only hold far fewer descriptors than there
+        # are streams (a stream file needs no descriptor once it is loaded)
+        mexe = build.harness("san", "many_threads", ["many_threads.c"], extra=['-DVERIF_OVNI_C="%s"' % os.path.join(REPO, "src/rt/ovni.c")])
+        emu_exe = build.tool("plain", "ovniemu")
+        mruns = 0
+        for nth in ((2, 70) if tier == "quick" else (1, 2, 3, 33, 70, 200)):
+            cd = os.path.join(scratch.sub("many"), "n%d" % nth)
+            env = dict(os.environ, ASAN_OPTIONS="detect_leaks=0:abort_on_error=0:exitcode=99", UBSAN_OPTIONS="halt_on_error=1:exitcode=98")
+            r = subprocess.run([mexe, cd, str(nth)], stdout=subprocess.PIPE, stderr=subprocess.PIPE, env=env, timeout=120)
+            mruns += 1
+            msg = None
+            if r.returncode != 0:
+                msg = "the program failed (exit %d): %s" % (r.returncode, r.stderr.decode("latin1").strip().split("\n")[-1][:200])
+            sdirs = sorted(glob.glob(os.path.join(cd, "trace", "loom.L", "proc.*", "thread.*")))
+            if msg is None and len(sdirs) != nth:
+                msg = "%d stream directories for %d threads" % (len(sdirs), nth)
+            for sp in sdirs:
+                if msg is None:
+                    # (the CPUs of the loom are declared by one thread of the process: the initial one here)
+                    initial = os.path.basename(sp).split(".")[1] == os.path.basename(os.path.dirname(sp)).split(".")[1]
+                    m = check_valid(cd, sp, optional=(() if initial else ("ovni.loom_cpus",)))
+                    if m:
+                        msg = "%s: %s" % (os.path.basename(sp), m)
+            if msg is None:
+                for nofile in (None, 40):
+                    rc, out, err = emusrv.run_tool(emu_exe, ["-l", os.path.join(cd, "trace")], nofile=nofile)
+                    ctx.add(traces_validated_against_impl=1)
+                    if rc != 0:
+                        last = [l for l in err.strip().split("\n") if l][-3:]
+                        msg = "ovniemu -l rejects the trace%s (exit %r): %s" % (
+                            " with %d descriptors allowed" % nofile if nofile else "", rc, " | ".join(last)[:300])
+                        break
+            ctx.add(evaluations=1, transitions=nth * 8)
+            if msg is not None:
+                ctx.violation("conformant program with %d threads: %s" % (nth, msg),
+                              {"engine": "E1 many_threads", "threads": nth, "oracle": "C02"}, {"kind": "many-threads", "threads": nth})
+            shutil.rmtree(cd, ignore_errors=True)
+        ctx.part("many-threads", runs=mruns)
         # real capacity: (fill before the jumbo) x (jumbo size) where a forced flush happens and the room
         # left afterwards is in [1, 64]
         exe = build_driver(build, None)
